@@ -387,22 +387,49 @@ def _nest(kitems):
 
 
 class _Preview(object):
-    """an observer that looks kerning up from inside its Groups.Changed / Kerning.Changed callback (what a
-    kerning preview does); by the cache-transparency theorem this must not change any later answer"""
+    """an observer that looks kerning up from inside its callbacks (what a kerning preview does): it is called back for
+    every notification Groups / Kerning post once their contents have changed, by name and for any sender.  By the
+    cache-transparency theorem its reading must not change any later answer - and what it reads must itself be the
+    answer for the CURRENT contents (the contents are already the new ones when these notifications are posted)."""
 
-    def __init__(self, font):
+    NAMES = ("Groups.Changed", "Groups.GroupSet", "Groups.GroupDeleted", "Groups.Cleared", "Groups.Updated",
+             "Kerning.Changed", "Kerning.PairSet", "Kerning.PairDeleted", "Kerning.Cleared", "Kerning.Updated")
+
+    def __init__(self, font, world):
         self.font = font
+        self.world = world
         self.calls = 0
-        font.dispatcher.addObserver(self, "changed", "Groups.Changed", None)
-        font.dispatcher.addObserver(self, "changed", "Kerning.Changed", None)
+        for n in self.NAMES:
+            font.dispatcher.addObserver(self, "changed", n, None)
 
     def changed(self, notification):
         self.calls += 1
         font = self.font
-        if font._kerning is None or font._groups is None:
+        if font._kerning is None or font._groups is None or font is not self.world.font:
             return
-        for pair in (("A", "B"), ("B", "A"), ("C", "D")):
-            font.kerning.find(pair)
+        groups = dict((n, list(ms)) for n, ms in font.groups.items())
+        kerning = dict(font.kerning.items())
+        names = sorted(set(m for ms in groups.values() for m in ms) | set(["A", "B", "C", "D"]))[:5]
+        pairs = [(a, b) for a in names[:3] for b in names]
+        got = [font.kerning.find(pair, 7) for pair in pairs]
+        tables = dict((t, font.groups.getRepresentation(REPR[t])) for t in TABLES)
+        w = self.world
+        w.stats["callback-lookups"] = w.stats.get("callback-lookups", 0) + len(pairs)
+        if w.cbviol or not rules_hold(groups):
+            return
+        for (a, b), v in zip(pairs, got):
+            allowed, tier, both = ref_find(kerning, groups, a, b, 7)
+            if v not in allowed:
+                w.cbviol.append(dict(clause="C19/find", signature="C19/find/%s/inside-callback/%s" % (tier, notification.name),
+                                     pair=[a, b], expected=sorted(allowed), observed=v, groups=groups,
+                                     kerning=[[x, y, z] for (x, y), z in kerning.items()]))
+                return
+        for t in TABLES:
+            exp = ref_table(groups, t)
+            if dict(tables[t]) != exp:
+                w.cbviol.append(dict(clause="C19/table", signature="C19/table/%s/inside-callback/%s" % (t, notification.name),
+                                     expected=exp, observed=dict(tables[t]), groups=groups))
+                return
 
 
 class World(object):
@@ -412,8 +439,10 @@ class World(object):
         self.preview = preview
         self.font = Font()
         self.keep = [self.font]     # BaseObject.__del__ unregisters observers: keep everything alive
+        self.stats = {}
+        self.cbviol = []
         if preview:
-            self.keep.append(_Preview(self.font))
+            self.keep.append(_Preview(self.font, self))
         self.tmp = None
         self.path = None
         self.n = 0
@@ -440,7 +469,7 @@ class World(object):
         self.font = self.Font(path)
         self.keep.append(self.font)
         if self.preview:
-            self.keep.append(_Preview(self.font))
+            self.keep.append(_Preview(self.font, self))
 
     def ext_groups(self, groups):
         if self.path is None:
@@ -669,7 +698,7 @@ def run_impl(case):
     w = World(preview=bool(case.get("preview")))
     outs = []
     viol = []
-    stats = {}
+    stats = w.stats
     ops = case["ops"]
     try:
         filled = edited_after_fill = observed_after_edit = False
@@ -685,6 +714,8 @@ def run_impl(case):
             stats["op." + k] = stats.get("op." + k, 0) + 1
             if isinstance(out, list) and out and out[0] == "err":
                 stats["err.%s.%s" % (k, out[1])] = stats.get("err.%s.%s" % (k, out[1]), 0) + 1
+            if not viol and w.cbviol:
+                viol.append(dict(w.cbviol[0], step=i, op=op))
             if not viol:
                 v = check_step(w, ops, i, out, stats)
                 if v is not None:
